@@ -295,10 +295,21 @@ def xml_escape(s):
     return s.replace("&", "&amp;").replace("<", "&lt;").replace(">", "&gt;").replace('"', "&quot;")
 
 
+def _av_text(t, defs):
+    """the allowed values of type t; in a third of the models `null` is listed among them, first or last (the idiom of the
+    shipped lending models: `[0..999], null`): a value of the right type that fails every other test is still not allowed"""
+    if defs.av_null == 1:
+        return AV_TEXT[t] + ", null"
+    if defs.av_null == 2:
+        return "null, " + AV_TEXT[t]
+    return AV_TEXT[t]
+
+
 class _Defs:
-    def __init__(self):
+    def __init__(self, av_null=0):
         self.top = []
         self.n = 0
+        self.av_null = av_null
 
     def fresh(self):
         self.n += 1
@@ -311,13 +322,13 @@ def _body(node, defs):
     if node["k"] == "simple":
         out.append("<typeRef>%s</typeRef>" % TYPEREF[node["t"]])
         if node["av"]:
-            out.append("<allowedValues><text>%s</text></allowedValues>" % xml_escape(AV_TEXT[node["t"]]))
+            out.append("<allowedValues><text>%s</text></allowedValues>" % xml_escape(_av_text(node["t"], defs)))
     elif node["k"] == "ref":
         name = defs.fresh()
         defs.top.append(_item("itemDefinition", name, node["to"], defs))
         out.append("<typeRef>%s</typeRef>" % name)
         if node["av"]:
-            out.append("<allowedValues><text>%s</text></allowedValues>" % xml_escape(AV_TEXT[leaf_type(node)]))
+            out.append("<allowedValues><text>%s</text></allowedValues>" % xml_escape(_av_text(leaf_type(node), defs)))
     else:
         for cname, c in node["cs"]:
             out.append(_item("itemComponent", cname, c, defs))
@@ -333,7 +344,9 @@ def item_definitions_xml(tree, root_name="T"):
     """(xml of all itemDefinition elements, typeRef to use on the variable)."""
     if "builtin" in tree:
         return "", TYPEREF[tree["builtin"]]
-    defs = _Defs()
+    import hashlib as _hl0
+
+    defs = _Defs(av_null=int(_hl0.sha1(("av" + repr(tree)).encode()).hexdigest(), 16) % 3)
     root = _item("itemDefinition", root_name, tree["root"], defs)
     # document order of the item definitions is not part of a model's meaning: a third of the trees declare every
     # referenced definition BEFORE its user (the order the shipped models use), a third AFTER it (forward references),
